@@ -11,7 +11,7 @@ FUNCTIONS = ['tally.merchant_engine.MerchantEngine.match', 'MerchantEngine._eval
              'tally.modifier_parser.check_all_conditions', 'tally.expr_parser.TransactionEvaluator']
 BOUNDS = 'N <= 3 rules (quick) / 4 (thorough); description <= 3-4 ASCII chars; constants <= 2 chars'
 OUTSIDE = 'tally up JSON/HTML observation points; non-ASCII text; more rules than N'
-STUBS = []
+STUBS = ['norm-*: extract_merchant_name returns a constant (the fallback name is checked by unknown-*)', 'legacy-mod-*: tally.merchant_utils.re.search(<rule pattern>) returns a symbolic truth value; the CSV file is real (written to a temp dir before the analysis)']
 TRUSTED = ['ast.parse maps a literal to an ast.Constant holding it (AST-constant injection)']
 ASSUMPTIONS = ['symbolic text is 7-bit ASCII']
 
@@ -51,16 +51,308 @@ def sel_first(n, cats=None, subs=None):
     return ob
 
 
+# ----------------------------------------------------------------------------- 2. real conditions
+DLEN = 3
+SLEN = 2
+
+
+def _mk_txn(desc, amount, fk, src, y, m, d):
+    from datetime import date
+    return {'description': desc, 'amount': amount, 'field': {'k': fk}, 'source': src, 'date': date(y, m, d)}
+
+
+def real_conditions(tname, dlen=3, slen=2, via='engine'):
+    """Real MerchantEngine.match (or normalize_merchant through the cached engine) on a template whose pattern
+    and threshold constants are symbolic, against the independent first-match oracle of harness.tmpl."""
+    from harness import tmpl
+    global DLEN, SLEN
+    DLEN, SLEN = dlen, slen
+    text = tmpl.TEMPLATES[tname]
+
+    def ob(desc: str, amount: int, s1: str, s2: str, s3: str, s4: str, n1: int, n2: int, n3: int,
+           fk: str, src: str, y: int, m: int, d: int) -> bool:
+        """
+        pre: len(desc) <= DLEN and len(s1) <= SLEN and len(s2) <= SLEN and len(s3) <= SLEN and len(s4) <= SLEN
+        pre: len(fk) <= SLEN and len(src) <= SLEN
+        pre: 2024 <= y <= 2025 and 1 <= m <= 12 and 1 <= d <= 28
+        post: _
+        """
+        reset_tally_caches()
+        values = {'@P1': s1, '@P2': s2, '@P3': s3, '@P4': s4, 9001: n1, 9002: n2, 9003: n3}
+        eng = tmpl.load(text, values)
+        if tname != 'dates':
+            y, m, d = 2024, 12, 7      # concrete date: only the dates template has a symbolic one
+        txn = _mk_txn(desc, amount, fk, src, y, m, d)
+        if via == 'engine':
+            res = eng.match(dict(txn))
+            got = (res.matched, res.merchant, res.category, res.subcategory)
+            got_rule = res.matched_rule
+        else:
+            from tally import merchant_utils
+            merchant_utils._cached_engine = eng
+            real_name = merchant_utils.extract_merchant_name
+            merchant_utils.extract_merchant_name = lambda _d: 'FALLBACK'   # the fallback name is the subject of unknown-*
+            try:
+                mm, cc, ss, info = merchant_utils.normalize_merchant(
+                    desc, [], amount=amount, txn_date=txn['date'], field={'k': fk}, data_source=src)
+            finally:
+                merchant_utils.extract_merchant_name = real_name
+            got = (cc != 'Unknown', mm if cc != 'Unknown' else '', cc if cc != 'Unknown' else '', ss if cc != 'Unknown' else '')
+            got_rule = None
+        winner, truth = tmpl.oracle_first_match(eng, dict(txn))
+        if winner is None:
+            exp = (False, '', '', '')
+        else:
+            exp = (True, winner.merchant, winner.category, winner.subcategory)
+        ok = got == exp
+        if via == 'engine':
+            ok = ok and got_rule is winner
+            # rules whose condition is false have no influence / rules after the winner cannot change the result
+            kept = []
+            for r, t in zip(eng.rules, truth):
+                if t:
+                    kept.append(r)
+                    if r is winner:
+                        break
+            from tally.merchant_engine import MerchantEngine
+            e2 = MerchantEngine()
+            e2.rules = kept
+            e2.variables = dict(eng.variables)
+            r2 = e2.match(dict(txn))
+            ok = ok and (r2.matched, r2.merchant, r2.category, r2.subcategory) == got
+        return post(ok)
+    return ob
+
+
+# ----------------------------------------------------------------------------- 3. Unknown fallback
+def unknown_name(path, dlen=2):
+    """No categorizing rule matches => ('<name>', 'Unknown', 'Unknown') with a name that is a function of the
+    description alone (amount, date, source and custom field vary)."""
+    global DLEN
+    DLEN = dlen
+
+    def ob(desc: str, a1: int, a2: int, f1: str, f2: str) -> bool:
+        """
+        pre: len(desc) <= DLEN and len(f1) <= 1 and len(f2) <= 1 and all(c in 'aB1 -' for c in desc)
+        post: _
+        """
+        from datetime import date
+        from tally import merchant_utils
+        from tally.modifier_parser import ParsedPattern
+        reset_tally_caches()
+        if path == 'engine':
+            from tally.merchant_engine import parse_merchants
+            merchant_utils._cached_engine = parse_merchants('[T]\nmatch: amount > 5\ntags: big\n\n[N]\nmatch: amount > 1 and amount < 1\ncategory: Never\n')
+            rules = []
+        else:
+            rules = [('ZZZZ', 'M', 'Cat', 'Sub', ParsedPattern(regex_pattern='ZZZZ', is_expression=False), 'user', []),
+                     ('.', 'T', '', '', ParsedPattern(regex_pattern='.', is_expression=False), 'user', ['x'])]
+        r1 = merchant_utils.normalize_merchant(desc, rules, amount=a1, txn_date=date(2024, 1, 2), field={'k': f1}, data_source='S1')
+        r2 = merchant_utils.normalize_merchant(desc, rules, amount=a2, txn_date=date(2025, 7, 9), field={'k': f2}, data_source='S2')
+        ok = r1[1] == 'Unknown' and r1[2] == 'Unknown' and r2[1] == 'Unknown' and r2[2] == 'Unknown'
+        ok = ok and r1[0] == r2[0] and isinstance(r1[0], str) and len(r1[0]) > 0
+        return post(ok)
+    return ob
+
+
+# ----------------------------------------------------------------------------- 4. legacy CSV tuples with modifiers
+class _ReShim:
+    def __init__(self, truth):
+        import re as _re
+        self._re = _re
+        self._truth = truth
+        self.IGNORECASE = _re.IGNORECASE
+        self.error = _re.error
+
+    def search(self, pattern, text, flags=0):
+        if pattern in self._truth:
+            return self._truth[pattern]
+        return self._re.search(pattern, text, flags)
+
+    def __getattr__(self, name):
+        return getattr(self._re, name)
+
+
+LEGACY_ROWS = [
+    # (pattern text as written in the CSV, merchant, category, subcategory, tags)
+    ('(PATA|X)[amount>100]', 'MA', 'CatA', 'SubA', ''),
+    ('PATB or Z[month=6]', 'MB', '', '', 'tagb'),
+    ('PATC[amount:10-20][date:2024-03-01..2024-03-31]', 'MC', 'CatC', '', 'tagc'),
+    ('PATD[amount=50][date=2024-05-05]', 'MD', 'CatD', 'SubD', ''),
+    ('PATE', 'ME', 'CatE', 'SubE', ''),
+]
+
+
+def _legacy_csv_file():
+    import tempfile
+    import os
+    d = tempfile.mkdtemp(prefix='verif_c01_')
+    p = os.path.join(d, 'merchant_categories.csv')
+    with open(p, 'w') as f:
+        f.write('Pattern,Merchant,Category,Subcategory,Tags\n# comment\n\n')
+        for row in LEGACY_ROWS:
+            f.write(','.join(row) + '\n')
+    return p
+
+
+def legacy_modifiers(rows):
+    """Legacy tuple loop on rules loaded by the real load_merchant_rules from a CSV file (written before the
+    analysis starts).  Regex truth is a symbolic vector (re.search stubbed); modifier values, amount and date
+    are symbolic.  Oracle: pattern found AND every modifier holds; first categorizing match wins."""
+    path = _legacy_csv_file()
+    rows = list(rows)
+
+    def ob(b0: bool, b1: bool, b2: bool, b3: bool, b4: bool, amount: int, cents: int,
+           v0: int, lo: int, hi: int, v3: int, mon: int, y: int, m: int, d: int) -> bool:
+        """
+        pre: 0 <= cents <= 99 and 2024 <= y <= 2024 and 1 <= m <= 12 and 1 <= d <= 28 and 1 <= mon <= 12
+        post: _
+        """
+        from datetime import date
+        from tally import merchant_utils
+        reset_tally_caches()
+        allrules = merchant_utils.get_all_rules(path)
+        rules = [allrules[i] for i in rows]
+        bs = [b0, b1, b2, b3, b4]
+        amt = amount + cents / 100
+        # symbolic modifier values
+        for r in rules:
+            parsed = r[4]
+            for c in parsed.amount_conditions:
+                if c.operator == '>':
+                    c.value = v0
+                elif c.operator == ':':
+                    c.min_value, c.max_value = lo, hi
+                elif c.operator == '=':
+                    c.value = v3
+            for c in parsed.date_conditions:
+                if c.operator == 'month':
+                    c.month = mon
+        truth = {allrules[i][0]: bs[i] for i in rows}
+        real_re = merchant_utils.re
+        merchant_utils.re = _ReShim(truth)
+        dt = date(y, m, d)
+        try:
+            mm, cc, ss, info = merchant_utils.normalize_merchant('PROBE', rules, amount=amt, txn_date=dt, data_source='S')
+        finally:
+            merchant_utils.re = real_re
+        exp = ('Probe', 'Unknown', 'Unknown')
+        exptags = []
+        for i in rows:
+            if not bool(bs[i]):
+                continue
+            okmod = True
+            if i == 0:
+                okmod = amt > v0
+            elif i == 1:
+                okmod = dt.month == mon
+            elif i == 2:
+                okmod = (lo <= amt and amt <= hi) and (date(2024, 3, 1) <= dt <= date(2024, 3, 31))
+            elif i == 3:
+                okmod = (-0.01 < amt - v3 < 0.01) and dt == date(2024, 5, 5)
+            if not okmod:
+                continue
+            row = LEGACY_ROWS[i]
+            if row[4]:
+                exptags.append(row[4])
+            if exp[1] == 'Unknown' and row[2]:
+                exp = (row[1], row[2], row[3])
+        got_tags = list(info['tags']) if info else []
+        return post((mm, cc, ss) == exp and got_tags == exptags)
+    return ob
+
+
+# ----------------------------------------------------------------------------- 5. transforms
+T_TRANSFORM = """
+field.description = strip_prefix(field.description, "@P1")
+field.memo = strip_prefix(field.memo, "@P2")
+field.memo = uppercase(field.memo)
+
+[M]
+match: field.memo == "@P3"
+category: CM
+
+[D]
+match: startswith("@P4")
+category: CD
+subcategory: SD
+"""
+
+
+def transforms_chain(dlen=2, slen=1):
+    """Field transforms are applied in file order, each seeing the result of the previous one, before matching."""
+    from harness import tmpl
+    global DLEN, SLEN
+    DLEN, SLEN = dlen, slen
+
+    def ob(desc: str, memo: str, s1: str, s2: str, s3: str, s4: str) -> bool:
+        """
+        pre: len(desc) <= DLEN and len(memo) <= DLEN and len(s1) <= SLEN and len(s2) <= SLEN and len(s3) <= DLEN and len(s4) <= SLEN
+        post: _
+        """
+        from tally import merchant_utils
+        reset_tally_caches()
+        values = {'@P1': s1, '@P2': s2, '@P3': s3, '@P4': s4}
+        eng = tmpl.load(T_TRANSFORM, values)
+        merchant_utils._cached_engine = eng
+        mm, cc, ss, info = merchant_utils.normalize_merchant(desc, [], amount=5, field={'memo': memo}, data_source='S',
+                                                              transforms=eng.transforms)
+        # documented semantics, applied by hand
+        d2 = desc[len(s1):] if desc.upper().startswith(s1.upper()) else desc
+        m1 = memo[len(s2):] if memo.upper().startswith(s2.upper()) else memo
+        m2 = m1.upper()
+        if m2.lower() == s3.lower():
+            exp = ('M', 'CM', '')
+        elif d2.upper().startswith(s4.upper()):
+            exp = ('D', 'CD', 'SD')
+        else:
+            exp = None
+        if exp is None:
+            ok = cc == 'Unknown' and ss == 'Unknown'
+        else:
+            ok = (mm, cc, ss) == exp
+        raw = (info or {}).get('raw_values', {})
+        ok = ok and (raw.get('_raw_description', desc) == desc)
+        return post(ok)
+    return ob
+
+
 def obligations(tier, seed):
     obs = []
-    ns = [1, 2, 3] if tier == 'quick' else [1, 2, 3]
-    for n in ns:
+    for n in [1, 2]:
         obs.append(Obligation(id=f'sel-first-n{n}', factory='sel_first', params={'n': n}, timeout=90,
                               group='selection core', bounds=f'{n} rules; truth vector, has-category and has-subcategory flags symbolic'))
+    import itertools
+    for c0 in (False, True):
+        for c1 in (False, True):
+            obs.append(Obligation(id=f'sel-first-n3-c{int(c0)}{int(c1)}', factory='sel_first',
+                                  params={'n': 3, 'cats': None, 'subs': None} if False else {'n': 3, 'cats': [c0, c1, True], 'subs': None},
+                                  timeout=90, group='selection core',
+                                  bounds='3 rules; has-category fixed (%s,%s,True); truth vector and has-subcategory symbolic' % (c0, c1)))
+    obs.append(Obligation(id='sel-first-n3-cxx0', factory='sel_first', params={'n': 3, 'cats': [True, True, False], 'subs': [True, False, True]},
+                          timeout=90, group='selection core', bounds='3 rules; last rule tag-only; truth vector symbolic'))
     if tier == 'thorough':
-        import itertools
         for cats in itertools.product([False, True], repeat=4):
             obs.append(Obligation(id='sel-first-n4-c' + ''.join('1' if c else '0' for c in cats), factory='sel_first',
-                                  params={'n': 4, 'cats': list(cats)}, timeout=120, group='selection core',
+                                  params={'n': 4, 'cats': list(cats)}, timeout=300, group='selection core',
                                   bounds='4 rules; has-category pattern fixed, truth vector and has-subcategory symbolic'))
+    tnames = ['vars', 'letshadow', 'dates', 'fields', 'funcs', 'fail']
+    q = tier == 'quick'
+    dl, sl = (2, 1) if q else (3, 2)
+    for t in tnames:
+        obs.append(Obligation(id=f'real-{t}', factory='real_conditions', params={'tname': t, 'dlen': dl, 'slen': sl},
+                              timeout=170 if q else 1500, group='real conditions',
+                              bounds=f'template {t}: description <= {dl}, string constants/field/source <= {sl} ASCII chars, integer amount and thresholds, date in 2024-2025'))
+    for t in (['letshadow', 'fields'] if q else tnames):
+        obs.append(Obligation(id=f'norm-{t}', factory='real_conditions', params={'tname': t, 'dlen': dl, 'slen': sl, 'via': 'normalize'},
+                              timeout=170 if q else 1500, group='normalize_merchant, engine path',
+                              bounds=f'template {t} through normalize_merchant with the cached engine; description <= {dl}, constants <= {sl}'))
+    for path in ['engine', 'legacy']:
+        obs.append(Obligation(id=f'unknown-{path}', factory='unknown_name', params={'path': path, 'dlen': 2 if q else 3}, timeout=170 if q else 1500,
+                              group='Unknown fallback', bounds=f'description <= {2 if q else 3} chars over the alphabet (a,B,1,blank,-); two different amounts/dates/sources/fields'))
+    for i, rows in enumerate([[0, 1, 4], [2, 3, 4], [1, 3, 0]] if tier == 'quick' else [[0, 1, 4], [2, 3, 4], [1, 3, 0], [0, 1, 2, 3, 4], [4, 3, 2, 1, 0]]):
+        obs.append(Obligation(id=f'legacy-mod-{i}', factory='legacy_modifiers', params={'rows': rows}, timeout=170 if tier == 'quick' else 900, reals=True,
+                              group='legacy CSV tuples', bounds='CSV rows %r loaded by the real loader; regex truth vector (re.search stubbed), modifier values, amount (two decimals) and date symbolic' % rows))
+    obs.append(Obligation(id='transforms-chain', factory='transforms_chain', params={'dlen': dl, 'slen': sl}, timeout=170 if tier == 'quick' else 1500,
+                          group='transforms', bounds=f'3 transforms (description prefix, memo prefix, memo uppercase); description/memo/compared constant <= {dl}, prefixes <= {sl} ASCII chars'))
     return obs
